@@ -257,12 +257,33 @@ def run_lane(inv, prop, tier, seed, scratch, index, env):
         "violations": violations + [v for r in results for v in r.get("violations", [])],
         "inconclusive": [i for r in results for i in r.get("inconclusive", [])][:10],
         "counters": {f"{lane}_runs": runs, f"{lane}_reports_in_scope": len(violations), f"{lane}_reports_out_of_scope": len(out_of_scope), f"{lane}_build_s": int(build_s),
-                     **{f"{lane}_{k}": v for r in results for k, v in r.get("counters", {}).items() if k.startswith("sched_") and k.endswith("_exercised")}},
+                     **{f"{lane}_{k}": v for r in results for k, v in r.get("counters", {}).items() if k.startswith("sched_") and k.endswith("_exercised")},
+                     **_observed(lane, results)},
         "notes": [f"{lane} flags: " + (MIRIFLAGS if lane == "miri" else {"asan": "-Zsanitizer=address, detect_leaks=0, halt_on_error=1", "tsan": "-Zsanitizer=thread -Zbuild-std, halt_on_error=0", "memcheck": "valgrind --tool=memcheck on the plain release profile"}[lane])],
         "wall_s": 0,
     }
     broken = [r for r in results if "crashed" in r or "watchdog" in r]
     return [lane_result] + broken
+
+
+OBSERVED_PREFIXES = ("uring_buffers_", "direct_", "big_", "aligned_buffers", "allocator_roundtrips", "mini_disk_reads", "histories", "images_recovered",
+                     "plans_with_", "enter_fault_", "indeterminate_", "calls_checked", "runs", "stale_extent_", "recovered_", "images")
+
+
+def _observed(lane, results):
+    """What the engines saw while running under the tool: evaluations per engine and the counters that show which
+    code was driven (buffers handed to the kernel, O_DIRECT round trips, values read back from the device, ...)."""
+    out = {}
+    for r in results:
+        if "crashed" in r or "watchdog" in r:
+            continue
+        eng = str(r.get("engine", "")).replace(":", "_")
+        out[f"{eng}_evaluations"] = out.get(f"{eng}_evaluations", 0) + r.get("evaluations", 0)
+        for k, v in r.get("counters", {}).items():
+            if k.startswith(OBSERVED_PREFIXES) and isinstance(v, int):
+                key = f"{eng}_{k}"
+                out[key] = out.get(key, 0) + v
+    return out
 
 
 def _collect(procs, lane, reports, results, inv, tier):
